@@ -36,7 +36,6 @@ static size_t nparts, cparts;
 
 static void drv_reset(void)
 {
-	alarm(4);   /* a behaviour is a few calls on small data: a longer run is a hang */
 	free(data); data = 0; dlen = pos = 0;
 	free(parts); parts = 0; nparts = cparts = 0;
 	ranged = 1; limit = 65535;
